@@ -437,7 +437,7 @@ def r09_14(ctx):
                   expected="self._param_vals[parameter] = copy.deepcopy(value) (or DM(value))", found=ast.unparse(st), fi=g, node=st, sample={"store": ast.unparse(st)})
 
 
-@rule("R09.15", min_instances=4, desc="a parameter value handed to Opti together with an EXPRESSION target (the per-interval parameters stacked with hcat) is made dense first: Opti pairs the k-th stored nonzero of a sparse value with the k-th entry of the expression")
+@rule("R09.15", min_instances=2, desc="a parameter value handed to Opti together with an EXPRESSION target (the per-interval parameters stacked with hcat) is made dense first: Opti pairs the k-th stored nonzero of a sparse value with the k-th entry of the expression")
 def r09_15(ctx):
     """D89: set_value(r, vertcat(xref, DM(1, N+1))) after transcription gave [[1 3 5 9 9],[2 4 9 9 9]] (old values 9) instead of [[1..5],[0..0]]."""
     P = ctx.prog
@@ -445,12 +445,13 @@ def r09_15(ctx):
     for name in ("set_value", "set_parameter"):
         f = P.own_method("SamplingMethod", name)
         for c in walk_no_nested(f.node):
-            if isinstance(c, ast.Call) and isinstance(c.func, ast.Attribute) and c.func.attr == "set_value" and len(c.args) == 2 and isinstance(c.args[0], ast.Call) \
-                    and ast.unparse(c.args[0].func).split(".")[-1] in ("hcat", "horzcat", "vcat", "vertcat", "vvcat", "veccat"):
+            # a target that is not one plain Opti parameter (self.P[i], a signal's coefficient matrix) may be a stacked expression
+            if isinstance(c, ast.Call) and isinstance(c.func, ast.Attribute) and c.func.attr == "set_value" and len(c.args) == 2 and ast.unparse(c.func.value).endswith("opti") \
+                    and not (isinstance(c.args[0], ast.Subscript) and ast.unparse(c.args[0].value) == "self.P") and not ast.unparse(c.args[0]).endswith(".coeff"):
                 n += 1
                 v = c.args[1]
                 dense = isinstance(v, ast.Call) and ast.unparse(v.func).split(".")[-1] in ("densify", "full")
                 ctx.check(dense, "SamplingMethod.%s: the value for %s is made dense" % (name, ast.unparse(c.args[0])[:40]), detail="a value with structural zeros is packed into the first entries of the stacked parameters and the others keep their old values",
                           expected="opti.set_value(<stacked parameters>, densify(DM(value)))", found=ast.unparse(v)[:60], fi=f, node=c)
-    if n < 4:
-        raise AnalysisError("R09.15: only %d set_value calls with a stacked target found in SamplingMethod.set_value / set_parameter (expected 4)" % n)
+    if n < 2:
+        raise AnalysisError("R09.15: only %d set_value calls with a (possibly) stacked target found in SamplingMethod.set_value / set_parameter" % n)
